@@ -11,6 +11,7 @@ from world import Rng, World
 
 ID = "C11"
 LEAN_MODULES = ["QtyModel.Props.C11"]
+HARNESS_GROUPS = ()
 RULE = ("seeded random well-formed definitions (1..10 units, identifiers with digits/acronyms/underscores, symbols incl. "
         "non-ASCII, integer/float/exponent literal forms, optional SI prefix and doc, attributes in random order, with / "
         "without reference unit, single unit, derived A*B, A*A, A/B, AmountT/B), each also as a twin with permuted "
@@ -68,22 +69,28 @@ def build_variant(root, be, defs, items_path, key):
         f.write("[net]\noffline = true\n")
     tdir = os.path.join(pl.CACHE, f"target-gen-{key}-{be}")
     env = dict(pl.ENV, CARGO_TARGET_DIR=tdir, RUSTFLAGS="-Awarnings")
-    p = subprocess.run(["cargo", "build", "--features", "serde" + (",dec" if be == "dec" else ""), "--message-format=short"],
+    p = subprocess.run(["cargo", "build", "--features", "serde,g_ser,g_derived,g_rate,g_tconv" + (",dec" if be == "dec" else ""), "--message-format=short"],
                        cwd=vdir, env=env, stdout=subprocess.PIPE, stderr=subprocess.STDOUT, text=True, timeout=3600)
     return p.returncode == 0, p.stdout, os.path.join(tdir, "debug/harness"), dump, failed
 
 
 def script(w, rng, tier):
-    """registry + an operator script over the generated types, reusing the property generators"""
-    import props.c01 as c01, props.c02 as c02, props.c03 as c03, props.c04 as c04, props.c05 as c05
-    import props.c08 as c08, props.c09 as c09, props.c10 as c10, props.c15 as c15, props.c17 as c17
+    """registry, constructors and lookups (compared strictly with the model of the macro), plus one
+    line per operator kind and type to see that the full set of operators exists (values of the
+    operators are the business of C01-C05, C13, C15)"""
+    import props.c01 as c01, props.c03 as c03, props.c02 as c02, props.c04 as c04
+    import props.c08 as c08, props.c09 as c09, props.c15 as c15, props.c17 as c17
     ops = []
-    for m in (c09, c01, c03, c02, c04, c05, c08, c10, c15, c17):
+    for m in (c09, c08):
+        ops += [("strict:" + lab, l) for lab, l in m.gen(w, rng, "quick")]
+    for m in (c01, c03, c02, c04, c15, c17):
         part = m.gen(w, rng, "quick")
-        cap = 1500 if tier == "quick" else 6000
-        if len(part) > cap:
-            part = [("reg", l) for lab, l in part if l.startswith("reg")] + [part[rng.below(len(part))] for _ in range(cap)]
-        ops += part
+        seen = set()
+        for lab, l in part:
+            key = tuple(l.split(" ")[:2]) if not l.startswith("d") else tuple(l.split(" ")[:4])
+            if key not in seen:
+                seen.add(key)
+                ops.append(("exists:" + lab, l))
     return ops
 
 
@@ -120,6 +127,7 @@ def extra(tier, seed):
             w = World(be, dump)
             ops = script(w, rng, tier)
             lines = [l for _, l in ops]
+            strict = [lab.startswith("strict:") for lab, _ in ops]
             ops_p, impl_p = os.path.join(root, f"ops_{be}.txt"), os.path.join(root, f"impl_{be}.txt")
             with open(ops_p, "w", encoding="utf-8") as f:
                 f.write("\n".join(lines) + "\n")
@@ -136,12 +144,19 @@ def extra(tier, seed):
                 if l.startswith("reg "):
                     regs[l.split(" ")[1]] = io
                 known_dec_prec = be == "dec" and l.startswith("fmt ") and v.startswith("FAIL:amount does not have exactly")
-                if v.startswith("FAIL") and not known_dec_prec:
+                if v.startswith("FAIL") and not known_dec_prec and strict[i]:
                     fails.append(dict(backend=be, op=l, impl=io, model=m, what=v, oracle=v,
                                       definition=def_text(defs, l)))
                     break
+                if not strict[i]:
+                    if any(x in io for x in ("bad-op", "no-such-impl", "no-such-type", "<missing>")):
+                        what = "an operator / constructor / formatter the declaration entitles to is missing"
+                        fails.append(dict(backend=be, op=l, impl=io, model=m, what=what, oracle="FAIL:" + what,
+                                          definition=def_text(defs, l)))
+                        break
+                    continue
                 if io != m:
-                    what = "generated type does not behave as its declaration says (model of the macro disagrees)"
+                    what = "generated type does not expose what its declaration says (model of the macro disagrees)"
                     fails.append(dict(backend=be, op=l, impl=io, model=m, what=what, oracle="FAIL:" + what,
                                       definition=def_text(defs, l)))
                     break
